@@ -82,6 +82,7 @@ func famC16(g *Gen, o *Out, n int, thorough bool) {
 		fc := &faultCtl{}
 		var st store
 		var err error
+		var ff *faultyFile
 		seq++
 		if api == "bs" {
 			st, err = openStore("bs", wo, roots, seq)
@@ -100,7 +101,7 @@ func famC16(g *Gen, o *Out, n int, thorough bool) {
 				return 0, nil, false
 			})
 		} else {
-			ff := &faultyFile{fc: fc}
+			ff = &faultyFile{fc: fc}
 			var sc *storage.StorageCar
 			sc, err = storage.NewReadableWritable(ff, roots, wo.opts()...)
 			st = &stStore{sc: sc, mf: &ff.memFile}
@@ -109,6 +110,46 @@ func famC16(g *Gen, o *Out, n int, thorough bool) {
 		if err != nil {
 			carv2.VerifSetWriteHook(nil)
 			continue
+		}
+		if c%3 == 1 {
+			// a resumed session: one block stored, the session interrupted (dropped / discarded, or finalized)
+			// and reopened, and the very first write of the resumed session fails — the undo must go back
+			// to where the resumed session started, not to the start of the payload
+			b0, b1 := bs[0], bs[len(bs)-1]
+			o.Line(fmt.Sprintf("put c=%x d=%s", b0.C.Bytes(), hexOr(b0.D)), "r="+st.do("put", b0.C, b0.D, nil))
+			if c%6 == 1 {
+				o.Line("finalize", "r="+st.do("finalize", cid.Undef, nil, nil))
+			} else if api == "bs" {
+				o.Line("discard", "r="+st.do("discard", cid.Undef, nil, nil))
+			}
+			var rerr error
+			if api == "bs" {
+				rerr = st.reopen(wo, roots)
+			} else {
+				var sc *storage.StorageCar
+				sc, rerr = storage.OpenReadableWritable(ff, roots, wo.opts()...)
+				if rerr == nil {
+					st.(*stStore).sc = sc
+				}
+			}
+			o.Line(fmt.Sprintf("reopen api=%s %s roots=%s", api, wo, rootsArg(roots)), "r="+okOrErr(rerr))
+			if rerr == nil {
+				fc.arm(c/3%3, (c/9)%6)
+				r := st.do("put", b1.C, b1.D, nil)
+				fail := ""
+				if fc.fired {
+					fail = fmt.Sprintf(" fail=%d:%d", fc.k, fc.firedN)
+					if r == "ok" {
+						r = "ok-despite-failed-write"
+					} else {
+						r = "other"
+					}
+				}
+				fc.disarm()
+				o.Line(fmt.Sprintf("put c=%x d=%s%s", b1.C.Bytes(), hexOr(b1.D), fail), "r="+r)
+				o.Line(fmt.Sprintf("get c=%x", b0.C.Bytes()), "r="+st.do("get", b0.C, nil, nil))
+				o.Count(api + "/resumed-first-put-fault/" + fmt.Sprint(fc.fired))
+			}
 		}
 		steps := 3 + g.pick(8)
 		if thorough {
